@@ -25,7 +25,7 @@ from vf.core import MachineryError, REPO
 from vf.par import pmap
 
 META = {
-    "ready": False,
+    "ready": True,
     "category": "model_checking",
     "technique": "TLA+ spec (ClassTreeFlatten.tla) of the parsed class graph and the in-place rewrites of instance "
                  "building, model-checked by TLC (intended and as-built configs); every transition of the as-built "
